@@ -165,8 +165,8 @@ func VerifC37Chain() {
 	c36Table = nil
 	ctx := context.Background()
 	nCerts := verifParam("certs", 2, 3)
-	maxSteps := verifParam("maxSteps", 4, 5)
-	maxPerBlock := verifParam("maxCertsPerBlock", 2, 2)
+	maxSteps := verifParam("maxSteps", 4, 4)
+	maxPerBlock := verifParam("maxCertsPerBlock", 2, 3)
 	window := verifI64("window")
 	verifAssume(window >= 0)
 	verifAssume(window <= 1<<40)
